@@ -749,7 +749,7 @@ def builder_actions(p: dict) -> set:
         if g["kind"] == "func":
             a.add("BAddFunc/Init(func)")
         for k, act in (("ins", "BAddIn"), ("inits", "BAddInit"), ("outs", "BAddOut"), ("nodes", "BAddNode"), ("vinfo", "BAddVI"), ("quant", "BAddQ"),
-                       ("untyped", "BAddUntyped")):
+                       ("untyped", "BAddUntyped"), ("doconly", "BAddDocOnly")):
             if g[k]:
                 a.add(act)
         for n in g["nodes"]:
@@ -799,6 +799,8 @@ def feature_key(p: dict) -> str:
             f.append("quant")
         if g["untyped"]:
             f.append("untyped")
+        if g.get("doconly"):
+            f.append("doconly")
         if "" in g["ins"] or "" in g["outs"] or "" in g["inits"]:
             f.append("empty-io-name")
         for k, n in enumerate(g["nodes"]):
